@@ -194,7 +194,8 @@ def registry():
     simple('core_qtt_to_tt', lambda L, rk: [('two', [ttl([space.core('gen', 2, 2, rk, 0, 0), space.core('gen', rk, 2, 3, 1, 0)], L)], {}),
                                             ('one', [ttl([space.core('gen', 2, 2, rk, 0, 0)], L)], {}),
                                             ('three', [ttl([space.core('gen', 1, 2, rk, 0, 0), space.core('gen', rk, 2, 2, 1, 0), space.core('gen', 2, 2, 1, 2, 0)], L)], {})])
-    simple('core_stab', lambda L, rk: [('scaled', [G(L, rk) * 8.0], {}), ('p0', [G(L, rk), 3], {})])      # below-threshold pass-through is whitelisted, not driven
+    simple('core_stab', lambda L, rk: [('scaled', [G(L, rk) * 8.0], {}), ('p0', [G(L, rk), 3], {})] +
+           [('max%g' % mx, [G(L, rk) / np.abs(G('C', rk)).max() * mx], {}) for mx in (1.0, 1.37, 1.999, 0.75, 2.0, 3.0)])      # below-threshold pass-through is whitelisted, not driven
     simple('core_tt_to_qtt', lambda L, rk: [('e%g' % e, [lay(space.core('gen', 2, 4, rk, 0, 0), L)], dict(e=e, r=r)) for e in (0., 1e-2) for r in (1, 1e12)])
     # --- cross / als / anova ------------------------------------------------------------------------------------------------------------------
     def _cross(L, rk):
@@ -218,6 +219,12 @@ def registry():
         out = [('const', [I, y, _base(L, rk)[0]], dict(nswp=2, info={})),
                ('w', [I, y, _base(L, rk)[0]], dict(nswp=2, info={}, w=lay(1.0 + np.arange(len(y)) % 3, L), lamb=0.1)),
                ('lamb-none', [I, y, _base(L, rk)[0]], dict(nswp=2, info={}, lamb=None)),
+               ('n1-lamb-none', [lay(space.grid_array([3, 1, 2]), L), lay(_f(space.grid_array([3, 1, 2])), L), ttl(space.tt([3, 1, 2], [1, rk, rk, 1], 'gen', 0), L)],
+                dict(nswp=2, info={}, lamb=None)),
+               ('n1', [lay(space.grid_array([1, 3, 1]), L), lay(_f(space.grid_array([1, 3, 1])), L), ttl(space.tt([1, 3, 1], [1, rk, rk, 1], 'gen', 0), L)],
+                dict(nswp=2, info={})),
+               ('one-slice-skip', [lay(space.grid_array([3, 2, 3])[:3], L), lay(_f(space.grid_array([3, 2, 3])[:3]), L), _base(L, rk)[0]],
+                dict(nswp=1, info={}, lamb=None, allow_skip_cores=True)),
                ('lamb-none-w', [I, y, _base(L, rk)[0]], dict(nswp=2, info={}, lamb=None, w=lay(1.0 + np.arange(len(y)) % 3, L))),
                ('vld', [I, y, _base(L, rk)[0]], dict(nswp=2, info={}, I_vld=_grid(L), y_vld=lay(_f(space.grid_array([3, 2, 3])), L), e_vld=1e-12)),
                ('adaptive', [I, y, _base(L, rk)[0]], dict(nswp=2, info={}, r=3)),
